@@ -69,7 +69,9 @@ def prove(cond, label, known=()):
     c = ctx()
     act = known_active()
     excl = []
-    for fid, pred in known:
+    for ent in known:
+        fid, pred = ent[0], ent[1]
+        witness = ent[2] if len(ent) > 2 else None
         if fid not in act:
             continue
         if isinstance(pred, bool):
@@ -85,8 +87,12 @@ def prove(cond, label, known=()):
             r = c._check(z3.And(z3.Not(ct), pt))
             if r == z3.sat:
                 m = c.solver.model()
-                c.known_hits[fid] = dict(label=label,
-                                         inputs=concretise(getattr(c, "inputs", {}), m))
+                inputs = concretise(getattr(c, "inputs", {}), m)
+                if witness:
+                    # the class is characterised through stub symbols; replay uses a fixed
+                    # concrete member of the class instead of the stub model's values
+                    inputs = dict(inputs, **witness)
+                c.known_hits[fid] = dict(label=label, inputs=inputs)
         excl.append(pred)
     return c.prove(sor(cond, *excl) if excl else cond, label)
 
